@@ -12,6 +12,7 @@ class T3TagAdversary(object):
         self.idm = None
         self.pmm = None
         self.commands = 0
+        self.unverified = False
 
     def polling(self, system_code):
         self.commands = self.commands + 1
@@ -26,6 +27,11 @@ class T3TagAdversary(object):
         self.commands = self.commands + 1
         if nondet_bool():
             raise nfc.tag.tt3.Type3TagCommandError(nfc.tag.TIMEOUT_ERROR)
+        if nondet_bool():
+            # an authenticated FeliCa Lite reads the NDEF service with MAC (read_from_ndef_service is read_with_mac
+            # then): the documented answer to a MAC that does not verify is None - nothing of it may be delivered
+            self.unverified = True
+            return None
         n = len(blocks)
         return nondet_bytearray(16 * n, 16 * n)
 
@@ -432,3 +438,33 @@ class LoopbackClf(object):
         if rsp is None:
             raise nfc.clf.TimeoutError("no response")
         return rsp
+
+
+class FelicaKeyTag(object):
+    """FeliCa Lite / Lite-S system blocks as protect() uses them: MC (88h), CKV (86h) and the card key CK (87h, write
+    only, each 8-octet half stored in reversed octet order)."""
+    def __init__(self, ck, mc, ckv):
+        self.ck = ck
+        self.mc = mc
+        self.ckv = ckv
+        self.key_writes = 0
+
+    def read(self, blocks):
+        if blocks[0] == 0x88:
+            return bytearray(self.mc)
+        if blocks[0] == 0x86:
+            return bytearray(self.ckv)
+        return nondet_bytearray(16, 16)
+
+    def write(self, data, block):
+        require(len(data) == 16, 'a block is 16 octets')
+        if block == 0x87:
+            d = bytes(data)
+            self.ck = bytes([d[7], d[6], d[5], d[4], d[3], d[2], d[1], d[0],
+                             d[15], d[14], d[13], d[12], d[11], d[10], d[9], d[8]])
+            self.key_writes = self.key_writes + 1
+        if block == 0x88:
+            self.mc = bytes(data)
+        if block == 0x86:
+            self.ckv = bytes(data)
+        return None
